@@ -62,7 +62,7 @@ def template(t, cls, gi, flip, **sel):
     return _check(eqfam.template_spec(name, gl.CLS_NAMES[cls], sel), gi, flip)
 
 
-TNAMES = ["star4", "lonepair", "dbond", "ring4", "sn2", "twocentre", "star5", "star6", "bare"]
+TNAMES = ["star4", "lonepair", "dbond", "ring4", "sn2", "twocentre", "star5", "star6", "bare", "annulene"]
 
 
 def plan(tier, seed, func_mod="vp.props.C01"):
